@@ -12,13 +12,14 @@ for _v in ('OMP_NUM_THREADS', 'OPENBLAS_NUM_THREADS', 'MKL_NUM_THREADS'):
 
 import copy
 import math
+from fractions import Fraction
 
 import numpy as np
 
 from common.util import Result, f2b, b2f, err_kind, close, close_list
 from common import nets
 from common import designgen as G
-from props.c08 import _load, design_impl, model_chain
+from props.c08 import _load, design_impl, model_chain, raman_estimate_class
 
 ID = 'C09'
 N = {'quick': 330, 'thorough': 12000}
@@ -33,7 +34,7 @@ THEOREMS = [f'Gnpy.Chain.{t}' for t in (
 RULE = ('cases from one PRNG: (a) 78 % design cases: the star topologies of C08 (degree 1-5, 1-8 line elements per direction, user '
         'amplifiers with full/partial/no gain, delta_p, out_voa, in_voa, fused runs, Raman spans, transceiver-sourced '
         'line) x power/gain mode x delta_power_range/slope/reference/padding/EOL/VOA margin+step/extended gain/ROADM '
-        'targets/per-degree targets/SI power, tx power, channel count, of which 12 % gain-mode lines built on purpose around '
+        'targets (power, power spectral density or power per slot width)/per-degree targets/SI power, tx power, channel count, of which 12 % gain-mode lines built on purpose around '
         'the saturation decision (operator type_variety + operator gain behind an amplifier with operator out_voa 1-4 dB, '
         'true output inside (p_max - prev_voa, p_max), below it, or just above p_max); (b) 12 % round2float / target_power unit cases '
         'incl. values next to rounding ties and clamps; (c) 10 % malformed delta_power_range_db (2 entries) that must '
@@ -183,12 +184,18 @@ def run_unit(case, drv):
         res.cmp_float('round2float', impl, b2f(a['value']), abs_=1e-12)
     # monitor: resolution not coarser than the step, error at most step/2 (+ the one-decimal rounding)
     s = round(case['step'], 1)
-    bound = (s / 2 + 0.05) if s >= 0.01 else 0.005
+    # half a step - the step as given or to one decimal, whichever is coarser - plus the one-decimal output rounding
+    bound = (max(s, case['step']) / 2 + 0.05) if s >= 0.01 else 0.005
     if abs(impl - x) > bound + 1e-9:
         res.fail(f'rounding: round2float({x}, {case["step"]}) = {impl}, further than {bound} from the value')
-    if b2f(a['margin']) >= 1e-6 and abs(impl - my_round2float(x, case['step'])) > 1e-9:
-        res.fail(f'rounding: round2float({x}, {case["step"]}) = {impl}, exact rounding gives '
-                 f'{my_round2float(x, case["step"])}')
+    # ... and the result is a multiple of the step - as given or to one decimal (0.01 for finer steps); which of the two,
+    # and which way a tie goes, is the code's business: the exact replication is compared with the model above and with
+    # exact rationals below (correspondence, not monitor)
+    grids = [g for g in (case['step'], s) if g >= 0.01] if s >= 0.01 else [0.01]
+    if not any(abs(impl / g - round(impl / g)) <= 1e-6 for g in grids):
+        res.fail(f'rounding: round2float({x}, {case["step"]}) = {impl} is not a multiple of the step')
+    if b2f(a['margin']) >= 1e-6:
+        res.cmp_float('round2float(exact rationals)', impl, my_round2float(x, case['step']), abs_=1e-9)
     # target_power through the real function needs a network: use the model/impl pair on the formula only
     lo, hi = case['lo'], case['hi']
     exp = 0.0 if case['next_is_roadm'] else min(hi, max(lo, impl))
@@ -211,8 +218,7 @@ def source_power(case, ch, eq, pref):
     if ch['src'] == 'TX':
         tx = case['si']['tx_power_dbm']
         return float(tx) if tx is not None else pref
-    params = case['roadms'].get(ch['src'], {})
-    target = params.get('target_pch_out_db', eq['Roadm']['default'].target_pch_out_db)
+    target = G.roadm_ref_power(case['roadms'].get(ch['src'], {}), eq)
     if ch['src'] == 'R0' and ch['dst'].startswith('R'):
         spoke = ch['dst'][1:]
         if spoke in case.get('per_degree', {}):
@@ -244,9 +250,17 @@ def run_design(case, drv):
     seen_total = {}
     orig_soa = NW.set_one_amplifier
 
-    def spy_soa(node, prev_node, next_node, power_mode, prev_voa, prev_dp, pref_ch_db, pref_total_db, *a, **k):
-        seen_total[node.uid] = float(pref_total_db)
-        return orig_soa(node, prev_node, next_node, power_mode, prev_voa, prev_dp, pref_ch_db, pref_total_db, *a, **k)
+    import inspect
+    sig_soa = inspect.signature(orig_soa)
+
+    def spy_soa(*a, **k):
+        # by parameter NAME (node, pref_total_db), whatever the order or number of the other parameters
+        try:
+            b = sig_soa.bind(*a, **k).arguments
+            seen_total[b['node'].uid] = float(b['pref_total_db'])
+        except (TypeError, KeyError, AttributeError, ValueError):
+            pass
+        return orig_soa(*a, **k)
     NW.set_one_amplifier = spy_soa
     try:
         err, _ = design_impl(case, eq, net)
@@ -269,7 +283,7 @@ def run_design(case, drv):
 
     # ---- model -------------------------------------------------------------------------------------------------------
     answers = []
-    ill_case = False
+    near_split = [False] * len(chains)
     for i, (ch, recs) in enumerate(zip(chains, pre)):
         recs = copy.deepcopy(recs)
         sels = []
@@ -291,8 +305,11 @@ def run_design(case, drv):
                     # set_fiber_input_power / set_roadm_input_powers start from pref_ch_db behind a transceiver
                     display_power=f2b(pref_impl if ch['src'] == 'TX' else source_power(case, ch, eq, pref_impl)))
         for r in recs:
-            if r['kind'] == 'fiber' and r['length'] >= hi and abs(r['length'] / target - round(r['length'] / target)) < 1e-9:
-                ill_case = True
+            # class D of `fiber_length // target_length`: only a quotient that is NOT an integer (an exact multiple such as
+            # 180 km / 90 km is deterministic) but within rounding noise of one; it affects this OMS's comparison only
+            q = Fraction(r['length']) / Fraction(target) if r['kind'] in ('fiber', 'raman') else Fraction(0)
+            if r['kind'] in ('fiber', 'raman') and r['length'] >= hi and q.denominator != 1 and abs(q - round(q)) < Fraction(1, 10 ** 9):
+                near_split[i] = True
         answers.append(drv.ask('c09.design', **args))
     model_err = next((a['error'] for a in answers if 'error' in a), None)
     if err is not None or model_err is not None:
@@ -302,16 +319,13 @@ def run_design(case, drv):
             res.stats.update({'design': 1, 'lump_on_boundary_rejected': 1})
             return res
         if err is not None:
-            cls = 'unlisted'
-            if err == 'TypeError' and case.get('has_raman'):
-                cls = 'raman-gain-before-estimate'
-            res.fail(f'design raised: designed_network failed with {err} on a well-formed topology', cls=cls)
+            res.fail(f'design raised: designed_network failed with {err} on a well-formed topology',
+                     cls=raman_estimate_class(case, err))
         res.nontrivial = True
         res.stats.update({'design': 1, f'design_error_{err}': 1})
         return res
-    if ill_case:
-        res.ill += 1
-        return res
+    skips = {'oms_near_split_not_comparable': 0, 'amps_not_compared_after_tie': 0, 'oms_ref_in_not_compared': 0,
+             'amps_pref_total_not_seen': 0}
 
     # ---- correspondence: every amplifier of every OMS -----------------------------------------------------------------------
     n_amps = 0
@@ -321,17 +335,24 @@ def run_design(case, drv):
             continue
         tag = f'oms[{ch["src"]}->{ch["dst"]}]'
         amps = [r for r in post[i] if r['kind'] == 'edfa']
+        if near_split[i] and [r['uid'] for r in amps] != a['amps']:
+            res.ill += 1
+            skips['oms_near_split_not_comparable'] += 1
+            continue
         if not res.cmp_exact(f'{tag}.amplifiers', [r['uid'] for r in amps], a['amps']):
             continue
-        if amps:
-            res.cmp_floats(f'{tag}.pref_total_db', [seen_total.get(r['uid'], float('nan')) for r in amps],
-                           [b2f(a['pref_total'])] * len(amps), abs_=1e-9)
+        seen = [r for r in amps if r['uid'] in seen_total]
+        skips['amps_pref_total_not_seen'] += len(amps) - len(seen)
+        if seen:
+            res.cmp_floats(f'{tag}.pref_total_db', [seen_total[r['uid']] for r in seen],
+                           [b2f(a['pref_total'])] * len(seen), abs_=1e-9)
         skip = False
         for r, om in zip(amps, a['outs']):
             o = om['o']
             n_amps += 1
             if skip:
                 res.ill += 1
+                skips['amps_not_compared_after_tie'] += 1
                 continue
             near_tie = b2f(o['margin']) < 1e-6
             impl = [r['effective_gain'], r['_delta_p'], r['out_voa'], r['in_voa']]
@@ -358,8 +379,9 @@ def run_design(case, drv):
                     res.cmp_float(f'{tag}.amp.target_pch_out_dbm', r['target_pch_out_dbm'], mt, abs_=1e-9, uid=r['uid'])
 
         # reference input powers recorded on fibres and on the ROADM that ends the line
-        if not skip and len(a.get('ref_in', [])) == len(post[i]) + 1:
-            from gnpy.core import elements as E
+        if skip or len(a.get('ref_in', [])) != len(post[i]) + 1:
+            skips['oms_ref_in_not_compared'] += 1
+        else:
             refs = [b2f(x) for x in a['ref_in']]
             impl_v, mod_v = [], []
             for k, (obj, r) in enumerate(zip(post_objs[i], post[i])):
@@ -374,7 +396,8 @@ def run_design(case, drv):
     # ---- monitor --------------------------------------------------------------------------------------------------------------
     st = {'amps': n_amps, 'amps_auto_selected': 0, 'amps_user_dp': 0, 'amps_user_gain_kept': 0, 'amps_reduced': 0,
           'amps_rule_checked': 0, 'amps_rule_clamped': 0, 'amps_voa_auto': 0, 'propagated_oms': 0,
-          'propagated_amp_outputs': 0, 'oms_with_two_amps': 0, 'oms_skipped_raman_propagation': 0, 'oms_own_band_spacing': 0}
+          'propagated_amp_outputs': 0, 'oms_with_two_amps': 0, 'oms_propagated_up_to_raman': 0, 'oms_own_band_spacing': 0}
+    st.update(skips)
     for i, ch in enumerate(chains):
         if post[i] is None:
             continue
@@ -383,11 +406,8 @@ def run_design(case, drv):
         st['oms_own_band_spacing'] += int(bands[i][2] != si.spacing and not si.use_si_channel_count_for_design)
         if sum(1 for r in post[i] if r['kind'] == 'edfa') >= 2:
             st['oms_with_two_amps'] += 1
-        if any(r['kind'] == 'raman' for r in post[i]):
-            st['oms_skipped_raman_propagation'] += 1
-        else:
-            propagate_oms(res, case, eq, net, ch, post_objs[i], ends[i], post[i], p0, pref, st, known_at,
-                          band=None if si.use_si_channel_count_for_design else bands[i])
+        propagate_oms(res, case, eq, net, ch, post_objs[i], ends[i], post[i], p0, pref, st, known_at,
+                      band=None if si.use_si_channel_count_for_design else bands[i])
     res.nontrivial = st['oms_with_two_amps'] > 0
     res.stats.update(st)
     res.stats.update({'design': 1, 'power_mode': int(sp['power_mode']), 'gain_mode': int(not sp['power_mode'])})
@@ -403,8 +423,9 @@ def monitor_oms(res, case, eq, ch, pre, post, p0, pref, pref_total, st):
     rng_ = sp['delta_power_range_db']
     user = {o['uid']: o for o in pre if o['kind'] == 'edfa'}
     off = p0 - pref             # power entering the line relative to the reference (prev_dp - prev_voa)
-    f10_at = None
-    f13_at = None
+    f13 = []            # (index, dB above p_max) of every amplifier reported for voa-rounding-above-pmax
+    vs = round(sp['voa_step'], 1)
+    voa_round_err = (vs / 2 + 0.05) if vs >= 0.01 else 0.005        # how far round2float(., voa_step) can round UP
     loss = 0.0
     span = []
     tag = f'{ch["src"]}->{ch["dst"]}'
@@ -442,9 +463,13 @@ def monitor_oms(res, case, eq, ch, pre, post, p0, pref, pref_total, st):
         # (c) total design power never above p_max
         p_out = pref_total + D
         if p_out > a.p_max + TOL:
-            cls_p = 'voa-rounding-above-pmax' if (voa_auto and pref_total + d_core <= a.p_max + TOL) else 'unlisted'
-            if cls_p != 'unlisted' and f13_at is None:
-                f13_at = idx
+            # the open finding: automatic VOA, the offset itself respects p_max, the configuration lets the VOA rounding
+            # beat the margin (voa_margin below half a step + the one-decimal rounding), and the excess is no more than that
+            known = (voa_auto and pref_total + d_core <= a.p_max + TOL and sp['voa_margin'] < voa_round_err
+                     and p_out - a.p_max <= voa_round_err - sp['voa_margin'] + TOL)
+            cls_p = 'voa-rounding-above-pmax' if known else 'unlisted'
+            if known:
+                f13.append((idx, p_out - a.p_max))
             res.fail(f'saturation: {r["uid"]} design output {p_out:.6f} dBm exceeds p_max {a.p_max} of {r["variety"]}',
                      cls=cls_p, uid=r['uid'])
         # limit the reduction may invoke: p_max, and for an auto-selected model also its gain ceiling
@@ -465,7 +490,9 @@ def monitor_oms(res, case, eq, ch, pre, post, p0, pref, pref_total, st):
             # (b) the documented rule
             st['amps_rule_checked'] += 1
             s = round(rng_[2], 1)
-            err = (s / 2 + 0.05) if s >= 0.01 else 0.005
+            # rounding to the step: the step as given or to one decimal, whichever is coarser (which one is the code's
+            # business), plus the one-decimal output rounding
+            err = (max(s, rng_[2]) / 2 + 0.05) if s >= 0.01 else 0.005
             if before_roadm:
                 lo_ok = hi_ok = 0.0
             else:
@@ -514,18 +541,20 @@ def monitor_oms(res, case, eq, ch, pre, post, p0, pref, pref_total, st):
         off = net
         loss = 0.0
         span = []
-    return f10_at, f13_at
+    return f13
 
 
-def known_cls(known_at, k):
-    """a deviation at or after an amplifier already reported for a known finding is the same finding"""
-    _, f13_at = known_at
-    if f13_at is not None and k >= f13_at:
+def known_cls(f13, k, dev, slack):
+    """a propagated output that falls short of the design at or after amplifiers already reported for
+    voa-rounding-above-pmax is the same finding as long as the shortfall is no more than what those amplifiers lost by
+    being held at p_max (the sum of their excesses); anything larger is unlisted"""
+    lost = sum(x for at, x in f13 if at <= k)
+    if lost > 0 and dev <= slack + 0.01 + lost:
         return 'voa-rounding-above-pmax'
     return 'unlisted'
 
 
-def propagate_oms(res, case, eq, net, ch, objs, end, post, p0, pref, st, known_at=(None, None), band=None):
+def propagate_oms(res, case, eq, net, ch, objs, end, post, p0, pref, st, known_at=(), band=None):
     """send the design comb through the OMS (element calls on copies) and compare every amplifier output, and the
     output of the ROADM that ends the OMS, with the design figures"""
     from gnpy.core import elements as E
@@ -541,6 +570,10 @@ def propagate_oms(res, case, eq, net, ch, objs, end, post, p0, pref, st, known_a
     slack = 0.0
     tag = f'{ch["src"]}->{ch["dst"]}'
     for k, (el, r) in enumerate(zip(copy.deepcopy(objs), post)):
+        if r['kind'] == 'raman':
+            # the Raman solver is outside this check: everything up to the Raman fibre has been compared
+            st['oms_propagated_up_to_raman'] += 1
+            return
         si = el(si)
         sr = float(np.min(si._signal_ratio))
         slack = max(slack, 10 * math.log10(1 / sr)) if sr > 0 else float('inf')
@@ -552,12 +585,19 @@ def propagate_oms(res, case, eq, net, ch, objs, end, post, p0, pref, st, known_a
             if dev > slack + 0.01:
                 res.fail(f'propagation: reference channel leaves {r["uid"]} ({tag}) at {float(np.mean(got)):.4f} dBm, '
                          f'design says p_ref + delta_p - out_voa = {exp:.4f} dBm (noise slack {slack:.4f} dB)',
-                         cls=known_cls(known_at, k), uid=r['uid'])
+                         cls=known_cls(known_at, k, dev, slack), uid=r['uid'])
     if isinstance(end, E.Roadm) and objs:
         roadm = copy.deepcopy(end)
         degs = [n.uid for n in net.successors(end)]
         deg = next((d for d in degs if not d.startswith('T')), degs[0])
         target = roadm.get_per_degree_ref_power(deg)
+        pol = case['roadms'].get(end.uid, {})
+        if deg not in roadm.per_degree_pch_out_dbm:
+            # constant power spectral density / constant power per slot width: own evaluation on the comb that arrives
+            if 'target_psd_out_mWperGHz' in pol:
+                target = 10 * np.log10(pol['target_psd_out_mWperGHz'] * si.baud_rate * 1e-9)
+            elif 'target_out_mWperSlotWidth' in pol:
+                target = 10 * np.log10(pol['target_out_mWperSlotWidth'] * si.slot_width * 1e-9)
         pin = 10 * np.log10(si.pch * 1e3)
         si = roadm(si, degree=deg, from_degree=objs[-1].uid)
         got = 10 * np.log10(si.pch * 1e3)
@@ -586,9 +626,9 @@ def run_malformed(case, drv):
         args.update(sels=[], pref=f2b(0.0), pref_total=f2b(18.0), src_power=f2b(-20.0), display_power=f2b(-20.0))
         model = drv.ask('c09.design', **args).get('error')
     res.cmp_exact('designed_network.error(malformed)', err, model)
-    if err != 'ConfigurationError':
-        res.fail(f'malformed accepted: delta_power_range_db {case["span"]["delta_power_range_db"]} gave {err}, expected '
-                 'ConfigurationError')
+    # monitor: the configuration must be rejected; WHICH error it is rejected with is compared with the model above
+    if err is None:
+        res.fail(f'malformed accepted: delta_power_range_db {case["span"]["delta_power_range_db"]} was designed with')
     res.nontrivial = True
     res.stats.update({'malformed': 1, f'malformed_error_{err}': 1})
     return res
